@@ -76,7 +76,11 @@ Definition py_iso8601 (s0 : list Z) : result ival :=
   match DurParse.match_duration s with
   | Some m =>
       if negb (runs_ok m) then Raise E_ValueError       (* int(): "Exceeds the limit (4300 digits)" *)
-      else match DurParse.py_native s with Ok (x, o) => Ok (I_pydur x o) | Raise e => Raise e end
+      else match DurParse.py_native s with                (* try: _parse_iso8601_duration(text) *)
+           | Ok (x, o) => Ok (I_pydur x o)
+           | Raise E_OverflowError => Raise E_ParserError    (* except OverflowError: raise ParserError("Duration is out of range") *)
+           | Raise e => Raise e
+           end
   | None => lift_p (IsoParse.py_parse_iso s)
   end.
 
@@ -88,17 +92,30 @@ Inductive iform :=
 | F_start_dur (a d : ival)
 | F_dur_end (d b : ival).
 
+(* `isinstance(endpoint, date)`: a date or a datetime; a time, a Duration and the compiled parser's raw Duration are not *)
+Definition endpoint_ok (i : ival) : bool :=
+  match i with I_p p => (IsoParse.p_kind p =? 1) || (IsoParse.p_kind p =? 2) | _ => false end.
+(* next to a duration a date is taken at midnight: datetime(start.year, start.month, start.day) *)
+Definition at_midnight (i : ival) : ival :=
+  match i with
+  | I_p p => if IsoParse.p_kind p =? 2 then I_p (IsoParse.mkp 1 (IsoParse.p_y p) (IsoParse.p_m p) (IsoParse.p_d p) 0 0 0 0 None) else i
+  | _ => i
+  end.
+
 Definition interval_parse (iso : list Z -> result ival) (s : list Z) : result iform :=
   match DurParse.split_slash s with
   | (_, None) => Raise E_ParserError                                  (* "/" not in text *)
   | (first, Some last) =>
       if DurParse.has_slash last then Raise E_ValueError                     (* first, last = text.split("/"): too many values to unpack *)
       else if head_is_P first then
-        bind (iso first) (fun d => bind (iso last) (fun b => Ok (F_dur_end d b)))
+        bind (iso first) (fun d => bind (iso last) (fun b =>
+          if endpoint_ok b then Ok (F_dur_end d (at_midnight b)) else Raise E_ParserError))      (* "Invalid interval" *)
       else if head_is_P last then
-        bind (iso first) (fun a => bind (iso last) (fun d => Ok (F_start_dur a d)))
+        bind (iso first) (fun a => bind (iso last) (fun d =>
+          if endpoint_ok a then Ok (F_start_dur (at_midnight a) d) else Raise E_ParserError))
       else
-        bind (iso first) (fun a => bind (iso last) (fun b => Ok (F_start_end a b)))
+        bind (iso first) (fun a => bind (iso last) (fun b =>
+          if endpoint_ok a && endpoint_ok b then Ok (F_start_end a b) else Raise E_ParserError))
   end.
 
 (* ------------------------------------------------------------------ stage 3: _parse_common(text, day_first=...) *)
@@ -161,8 +178,11 @@ Section Chain.
         | Raise E_ParserError =>                                     (* contextlib.suppress(ParserError) only *)
             if o_strict o then Raise E_ParserError
             else match du s (o_day_first o) (o_year_first o) with
-                 | Ok p => Ok (R_i (I_p p))
-                 | Raise E_ValueError | Raise E_ParserError => Raise E_ParserError      (* except ValueError: raise ParserError *)
+                 | Ok p =>                                            (* dt.utcoffset() inside the try: ValueError for 24 h and more *)
+                     if match IsoParse.p_off p with Some z => (z <=? -86400) || (86400 <=? z) | None => false end
+                     then Raise E_ParserError else Ok (R_i (I_p p))
+                 | Raise E_ValueError | Raise E_ParserError | Raise E_OverflowError => Raise E_ParserError
+                                                                     (* except (ValueError, OverflowError): raise ParserError *)
                  | Raise e => Raise e
                  end
         | Raise e3 => Raise e3
@@ -320,8 +340,17 @@ Section Chain.
         else if IsoParse.p_kind p =? 2 then Ok (V_p (IsoParse.mkp 2 (IsoParse.p_y p) (IsoParse.p_m p) (IsoParse.p_d p) 0 0 0 0 None))
         else Ok (V_p (IsoParse.mkp 3 0 0 0 (IsoParse.p_H p) (IsoParse.p_M p) (IsoParse.p_S p) (IsoParse.p_us p) None))
     | R_i (I_pydur _ ob) => Ok (V_dur ob)
-    | R_i (I_rsdur r) => bind (DurParse.rs_glue r) (fun xo => Ok (V_dur (snd xo)))      (* pendulum.duration(years=parsed.years, ...) *)
-    | R_form f => assemble rs o f
+    | R_i (I_rsdur r) =>
+        match DurParse.rs_glue r with                     (* try: return pendulum.duration(years=parsed.years, ...) *)
+        | Ok xo => Ok (V_dur (snd xo))
+        | Raise E_OverflowError => Raise E_ParserError   (* except OverflowError: raise ParserError("Duration is out of range") *)
+        | Raise e => Raise e
+        end
+    | R_form f =>
+        match assemble rs o f with                        (* try: ... return pendulum.interval(...) *)
+        | Raise E_OverflowError => Raise E_ParserError   (* except OverflowError: raise ParserError("Interval is out of range") *)
+        | r => r
+        end
     end.
 
   Definition is_now (s : list Z) : bool := match s with [110; 111; 119] => true | _ => false end.
